@@ -1,4 +1,5 @@
 import BHS.Props.C07
+import BHS.Props.SyncMgrGen
 open BHS.Props.C07
 #print axioms C07_never_stored
 #print axioms C07_never_found
@@ -14,3 +15,10 @@ open BHS.Props.C07
 #print axioms C07_exp_forbidden
 #print axioms C07_exp_checkpoint_mismatch
 #print axioms C07_exp_silent_after
+#print axioms BHS.Props.SyncMgrGen.Gen_handleHeadersMsg_refines
+#print axioms BHS.Props.SyncMgrGen.Gen_headersLoop_refines
+#print axioms BHS.Props.SyncMgrGen.Gen_verifyCheckpointHeight_refines
+#print axioms BHS.Props.SyncMgrGen.Gen_findNextHeaderCheckpoint_refines
+#print axioms BHS.Props.SyncMgrGen.C07_ban_disconnect_generated
+#print axioms BHS.Props.SyncMgrGen.C07_checkpoint_mismatch_generated
+#print axioms BHS.Props.SyncMgrGen.C07_checkpoint_advance_generated
